@@ -155,9 +155,10 @@ func c18MakeCert(k *c18VKeys, kind int, nb, na time.Time) ([]byte, error) {
 	}
 }
 
-func c18Verifier(t *testing.T) {
-	r := vrep.New("C18", "verifier")
-	defer r.Flush()
+// c18Verifier fills and returns its record; the caller flushes it (after the manager part, so that the records appear
+// in the order manager, dial, verifier).
+func c18Verifier(t *testing.T) (r *vrep.Result) {
+	r = vrep.New("C18", "verifier")
 	lives := []time.Duration{c18MaxLife - time.Second, c18MaxLife, c18MaxLife + time.Second}
 	var kn, pn, hn []string
 	for _, k := range c18LeafKinds {
@@ -302,4 +303,5 @@ func c18Verifier(t *testing.T) {
 	}
 	r.Distinct = int64(len(distinct))
 	r.Note("distinct_nontrivial = distinct (set of rules the server certificate breaks, exactly-at-a-boundary flag, chain shape, result) classes; evaluations = verifyRawCerts calls")
+	return r
 }
